@@ -4,6 +4,9 @@ mod c06;
 mod c08;
 mod c09;
 mod c10;
+mod c12;
+mod c13;
+mod c15;
 mod reffront;
 mod refkiki;
 mod corpus;
@@ -53,6 +56,9 @@ fn main() {
                 "C08" => c08::run(&ctx),
                 "C09" => c09::run(&ctx),
                 "C10" => c10::run(&ctx),
+                "C12" => c12::run(&ctx),
+                "C13" => c13::run(&ctx),
+                "C15" => c15::run(&ctx),
                 "C04" => gramsweep::run_c04(&ctx),
                 "C11" => gramsweep::run_c11(&ctx),
                 "C17" => gramsweep::run_c17(&ctx),
